@@ -42,7 +42,7 @@ CHECKS = {
             "Guard pages detect out-of-bounds accesses of the inline assembly only when they leave the array into the slack or the adjacent page.",
             "DESIGN.md §3 C14"),
     "C08": ("exploration", "E2+E1+E5",
-            "exhaustive sweep of all 2^32 mask values on a harness-built noise-free key-switching key + rapidcheck over layouts/dimensions/boundary masks with an exact phase identity (also on library-generated noisy keys, whose row errors are measured first) + z=6 moment tests over >=2e4 (quick) / >=1e5 (thorough) real-key samples",
+            "exhaustive sweep of all 2^32 mask values on a harness-built noise-free key-switching key + rapidcheck over layouts/dimensions/boundary masks with an exact phase identity (also on library-generated noisy keys: every row must encrypt its message h*s_i*base^-(j+1) within 9 alpha, then its measured error enters the identity) + z=6 moment tests over >=2e4 (quick) / >=1e5 (thorough) real-key samples",
             "Exhaustive over a mask coefficient for the default layout (quick) and ten layouts (thorough); generated layouts, dimension pairs (incl. 1 and non-multiples of 8) and boundary masks with an exact-identity oracle, so no tolerance is involved except in the summary statistics.",
             "Noise-free rows are written through the public structure by the harness. The unbiasedness clause is checked as the exact sum over the exhaustive sweep.",
             "DESIGN.md §3 C08"),
@@ -62,17 +62,17 @@ CHECKS = {
             "Tolerances are analytic (gadget truncation, key-switch rounding, 12 x noise bound); cases whose tolerance exceeds 1/16 are counted and not asserted.",
             "DESIGN.md §3 C04"),
     "C09": ("exploration", "E1",
-            "rapidcheck over external-product variants, gadget grid, messages, exact (harness-built) and library-encrypted TGSW rows, extreme TLWE inputs and blind rotations; oracle A = exact sum_p dec_p*row_p per coefficient, oracle B = phase semantics with exact truncation terms and measured row errors",
+            "rapidcheck over external-product variants, gadget grid, messages, exact (harness-built) and library-encrypted TGSW rows, extreme TLWE inputs and blind rotations; oracle A = exact sum_p dec_p*row_p per coefficient, oracle B = phase semantics with exact truncation terms and measured row errors (each bounded by 9 alpha around the gadget message)",
             "Generated cases against exact 64-bit integer references with analytic tolerances (FFT rounding only) on every back-end and build; noisy rows are handled as an exact identity by measuring their errors first.",
             "Ring degree 1024 only; blind rotations use key sets with library rows of sigma ~ 0 (error +-1 unit per row coefficient, included in the tolerance).",
             "DESIGN.md §3 C09"),
     "C15": ("exploration", "E1+E2",
-            "before/after snapshots of all input objects and key material, metamorphic RNG probe through the API, and aliased-vs-copy byte comparison; rapidcheck over functions/patterns plus a full gate x aliasing-pattern table",
+            "before/after snapshots of all input objects and key material, metamorphic RNG probe through the API, and aliased-vs-copy byte comparison, with inputs also placed on exact rounding ties; rapidcheck over functions/patterns plus a full gate x aliasing-pattern table",
             "Every gate with every applicable aliasing pattern is executed on every back-end; low-level evaluation functions run on generated small key sets with complete key snapshots.",
             "Snapshots are 64-bit hashes of the arrays (collision probability negligible).",
             "DESIGN.md §3 C15"),
     "C05": ("exploration", "E1",
-            "rapidcheck over sequences of 1..6 objects of the 14 exportable types written back-to-back into one stream, both transports in both directions; oracle = field equality (== on doubles), exact consumption, byte-identical re-export, functional equivalence of re-imported cloud/secret keys",
+            "rapidcheck over sequences of 1..6 objects of the 14 exportable types written back-to-back into one stream, both transports in both directions (memory and real files, arrays on both sides of the stdio buffer size); oracle = field equality (== on doubles), exact consumption, byte-identical re-export, functional equivalence of re-imported cloud/secret keys",
             "Generated object histories with full-precision real parameters and extreme contents, plus both default parameter sets and default-size key sets on every back-end.",
             "Objects are constructed through public constructors/fields; cloud and secret key sets use N=1024 (the importer rebuilds the FFT key).",
             "DESIGN.md §3 C05"),
@@ -92,7 +92,7 @@ CHECKS = {
             "Acceptance regions are centred on the sampler law actually implemented (truncation toward zero), computed numerically by the driver; a false alarm has probability < 1e-14 per statistic.",
             "DESIGN.md §3 C07"),
     "C06": ("exploration", "E1",
-            "rapidcheck over concurrent workloads (1..64 threads, per-thread histories incl. heap churn, respawn, key-generation thread) with a byte-for-byte differential against references computed by fresh single-operation threads; ThreadSanitizer build of the same workloads",
+            "rapidcheck over concurrent workloads (1..64 threads, per-thread histories incl. heap churn, respawn, bursts of short-lived threads, key-generation thread, keys made by exited helper threads) with a byte-for-byte differential against references computed by fresh single-operation threads of freshly forked processes; ThreadSanitizer build of the same workloads",
             "Sampled schedules under oversubscription on all five back-ends; any shared mutable FFT state or leftover scratch content changes output bytes, which the differential sees regardless of the assembly.",
             "Interleavings are sampled, not controlled; TSan sees only the C/C++ parts. A mismatch is reported even if a replay passes (it cannot occur without shared mutable state).",
             "DESIGN.md §3 C06"),
